@@ -33,7 +33,15 @@ func decisions(p *core.Path) []decided {
 		if len(succs) != 2 || succs[0] == succs[1] {
 			continue
 		}
-		nb := flat[i+1].In.Block()
+		// the next instruction executed: deferred calls replayed at a return sit in the block that deferred them
+		j := i + 1
+		for j < len(flat) && flat[j].Deferred {
+			j++
+		}
+		if j >= len(flat) {
+			continue
+		}
+		nb := flat[j].In.Block()
 		var val bool
 		switch nb {
 		case succs[0]:
